@@ -20,7 +20,7 @@ teneva = boot.boot()
 
 class Call:
     def __init__(self, name, fn, args, kwargs=None, mutable=(), passthrough=False, seed_kw=None,
-                 post=None, may_fail=False, defaults_dict=None, note=None):
+                 post=None, may_fail=False, defaults_dict=None, note=None, reset=None, check=None):
         self.name = name
         self.fn = fn
         self.args = list(args)
@@ -32,6 +32,8 @@ class Call:
         self.may_fail = may_fail           # known not to run on the pinned tree for reasons unrelated to C09/C10
         self.defaults_dict = defaults_dict # name of an optional dict argument left at its default (C10)
         self.note = note
+        self.reset = reset                 # puts stateful callbacks back to their initial state (for a repeated call)
+        self.check = check                 # result -> None or a description of what is wrong (absolute oracle, e.g. a twin comparison)
 
     def run(self):
         res = self.fn(*self.args, **self.kwargs)
@@ -362,12 +364,16 @@ def e_rand(c):
 
 @entry()
 def e_rand_custom(c):
-    g = np.random.Generator(np.random.PCG64(int(c.rng.integers(1 << 30))))
+    gseed = int(c.rng.integers(1 << 30))
+    box = [np.random.Generator(np.random.PCG64(gseed))]
 
     def f(size):
         c.monitor('rand_custom.f')
-        return g.standard_normal(size)
-    return Call('rand_custom', teneva.rand_custom, [_nlist(c), _rshape(c), f])
+        return box[0].standard_normal(size)
+
+    def reset():
+        box[0] = np.random.Generator(np.random.PCG64(gseed))
+    return Call('rand_custom', teneva.rand_custom, [_nlist(c), _rshape(c), f], reset=reset)
 
 
 @entry(weight=2)
@@ -450,7 +456,8 @@ def e_core_stab(c):
     kw = {}
     if c.rng.random() < 0.5:
         kw = {'p0': int(c.rng.integers(-3, 4)), 'thr': 1e-100}
-    return Call('core_stab', teneva.core_stab, [G], kw, passthrough=True)
+    # documented pass-through only below the threshold: an ordinary core must come back as a new array
+    return Call('core_stab', teneva.core_stab, [G], kw, passthrough=(kind != 'normal'))
 
 
 @entry()
@@ -691,8 +698,10 @@ def e_cache_to_data(c):
 
 # ------------------------------------------------------------------ func (TT) and func_full (dense)
 
-def _eqshape(c):
+def _eqshape(c, allow_one=False):
     nn = int(c.rng.integers(2, 5))
+    if allow_one and c.rng.random() < 0.15:
+        nn = 1          # a single basis function per mode (degenerate but accepted)
     d = int(c.rng.integers(2, 4))
     return [nn] * d
 
@@ -744,7 +753,7 @@ def e_func_get(c):
 
 @entry()
 def e_func_gets(c):
-    n = _eqshape(c)
+    n = _eqshape(c, allow_one=True)
     A = c.own(c.tt_shape(n, 2))
     kw = {}
     if c.rng.random() < 0.5:
@@ -775,7 +784,7 @@ def e_func_int_general(c):
 
 @entry()
 def e_func_sum(c):
-    n = _eqshape(c)
+    n = _eqshape(c, allow_one=True)
     A = c.own(c.tt_shape(n, 2))
     a, b = _box(c, len(n))
     return Call('func_sum', teneva.func_sum, [A, a, b], {} if c.rng.random() < 0.6 else {'kind': 'sin'})
@@ -941,6 +950,46 @@ def e_anova(c):
     return Call('anova', teneva.anova, [I, y], kw, seed_kw='seed')
 
 
+@entry(name='anova_from_file')
+def e_anova_from_file(c):
+    import os
+    import tempfile
+    I, y = _trn(c)
+    order = int(c.rng.integers(1, 3))
+    r = int(c.rng.integers(2, 4))
+    noise = float(_pick(c, [1e-10, 1e-2]))
+    owner_seed = int(c.rng.integers(1 << 30))
+    use_owner = bool(c.rng.integers(0, 2))
+    seed = c.seed()
+
+    def fn():
+        # a model is built and saved by some earlier owner (with its own seed, possibly after it drew from its generator),
+        # then cores are produced from the file with the caller's seed; the direct-data twin must give the same cores
+        d = tempfile.mkdtemp(prefix='verif-anova-', dir='/dev/shm' if os.path.isdir('/dev/shm') else None)
+        path = os.path.join(d, 'model.pickle')
+        try:
+            owner = teneva.ANOVA(I, y, order, seed=owner_seed)
+            if use_owner:
+                owner.cores(r)
+            owner.save(path)
+            return teneva.anova(None, None, r, order, noise, seed=seed, fpath=path)
+        finally:
+            try:
+                os.remove(path)
+            except OSError:
+                pass
+            os.rmdir(d)
+
+    def check(res):
+        import copy as _copy
+        twin_seed = _copy.deepcopy(c.seed_twin) if getattr(c, 'seed_twin', None) is not None else seed
+        ref = teneva.anova(I, y, r, order, noise, seed=twin_seed)
+        if len(ref) != len(res) or any(a.shape != b.shape or a.tobytes() != b.tobytes() for a, b in zip(ref, res)):
+            return 'anova(fpath=<saved model>, seed=s) differs from anova(I_trn, y_trn, seed=s) for the same data and seed'
+        return None
+    return Call('anova_from_file', fn, [], {}, seed_kw=None, check=check if isinstance(seed, int) else None)
+
+
 @entry()
 def e_ANOVA(c):
     I, y = _trn(c)
@@ -1026,7 +1075,12 @@ def e_cross(c):
         kw['cb'] = cb
     if c.rng.random() < 0.15:
         kw['log'] = True
-    return Call('cross', teneva.cross, [f, Y0], kw, mutable=mutable, defaults_dict=dd)
+
+    def reset():
+        st['calls'] = 0
+        if 'cb' in kw:
+            sw['s'] = 0
+    return Call('cross', teneva.cross, [f, Y0], kw, mutable=mutable, defaults_dict=dd, reset=reset)
 
 
 @entry(weight=2)
@@ -1100,7 +1154,11 @@ def e_als(c):
         kw['cb'] = cb
     if c.rng.random() < 0.1:
         kw['log'] = True
-    return Call('als', teneva.als, [I, y, Y0], kw, mutable=mutable, defaults_dict=dd)
+
+    def reset():
+        if 'cb' in kw:
+            sw['s'] = 0
+    return Call('als', teneva.als, [I, y, Y0], kw, mutable=mutable, defaults_dict=dd, reset=reset)
 
 
 @entry(weight=3)
@@ -1157,3 +1215,7 @@ def exported_callables():
 
 def uncatalogued():
     return [nm for nm in exported_callables() if nm not in ENTRIES]
+
+
+# composite entries that are not names of exported callables
+COMPOSITE = ['anova_from_file']
